@@ -131,6 +131,7 @@ type RuntimeWorld struct {
 	FaultMode      bool
 	FaultOut       *Outcome
 	listFaultsLeft int
+	Events         *eventTriggers // harness events fired by the probes (reactive writers)
 }
 
 // ErrorLogs renders the distinct error-level log messages (controller failures etc.).
@@ -172,7 +173,7 @@ func NewRuntimeWorld(variant string, h HistCfg, ro RuntimeOpts, outs ...*Outcome
 
 // NewRuntimeWorldWrapped is NewRuntimeWorld with a wrapper applied to the state handed to the runtime.
 func NewRuntimeWorldWrapped(variant string, h HistCfg, ro RuntimeOpts, wrap func(state.State) state.State, outs ...*Outcome) (*RuntimeWorld, error) {
-	w := &RuntimeWorld{StoreWorld: NewStoreWorld(variant, h)}
+	w := &RuntimeWorld{StoreWorld: NewStoreWorld(variant, h), Events: newEventTriggers()}
 	if len(outs) > 0 {
 		w.FaultOut = outs[0]
 	}
@@ -350,6 +351,7 @@ func (p *Probe) Run(ctx context.Context, r controller.Runtime, _ *zap.Logger) er
 			}
 			o.Seq = seq
 			p.LastObs[in.key()] = o
+			p.w.Events.fire("read:" + p.Spec.Name)
 			simrt.Yield("probe.between-reads")
 		}
 		if p.onReconcile != nil {
@@ -365,6 +367,7 @@ func (p *Probe) Run(ctx context.Context, r controller.Runtime, _ *zap.Logger) er
 		if p.Spec.WorkMs > 0 {
 			simrt.Sleep(time.Duration(p.Spec.WorkMs) * time.Millisecond)
 		}
+		p.w.Events.fire("end:" + p.Spec.Name)
 		r.ResetRestartBackoff()
 	}
 }
@@ -426,6 +429,7 @@ func (p *Probe) Reconcile(ctx context.Context, _ *zap.Logger, r controller.QRunt
 	} else {
 		o.Seq = seq
 		p.PrimaryObs[key] = o
+		p.w.Events.fire("read:" + p.Spec.Name)
 	}
 	for _, in := range p.Spec.Inputs {
 		if in.Kind != "qmapped" && in.Kind != "qmappeddr" {
@@ -462,6 +466,7 @@ func (p *Probe) Reconcile(ctx context.Context, _ *zap.Logger, r controller.QRunt
 	if p.Spec.WorkMs > 0 {
 		simrt.Sleep(time.Duration(p.Spec.WorkMs) * time.Millisecond)
 	}
+	p.w.Events.fire("end:" + p.Spec.Name)
 	return nil
 }
 
